@@ -9,8 +9,8 @@ from gen.deccommon import run_dec
 
 
 class SPEC:
-    rule = ("engine dec; alphabet of 28 symbols = {template A, template B, bad template (unknown element in strict mode), template whose field "
-            "count exceeds the specifiers present, template cut inside an enterprise number, template cut right after its id, data} x 2 observation domains x 2 template ids; A and B have different field lists of the "
+    rule = ("engine dec; alphabet of 32 symbols = {template A, template B, bad template (unknown element in strict mode), template whose field "
+            "count exceeds the specifiers present, template cut inside an enterprise number, template cut right after its id, a well-formed template with ZERO fields (replaces the older one), data} x 2 observation domains x 2 template ids; A and B have different field lists of the "
             "same record length so decoding with the wrong one shows in the values. Quick: ALL histories of length <= 3 plus all "
             "length-4 histories ending in a data symbol, plus random histories of length 5..40; thorough: all of length <= 4, "
             "length-5 ending in data, random up to 200. After each history the stored template keys are compared. "
@@ -45,6 +45,9 @@ def symbols():
             # cut inside the enterprise number of the second specifier
             ent = G.IE(56506, 101, 13, 65535, "sourcePodName")
             sym[("Z", d, i)] = W.message(d, 2, W.template_body(i, [u16, ent])[:-2])
+            # empty: a well-formed template record with zero fields - it REPLACES the older template (and
+            # data for it is then refused: a record of length 0 cannot be sliced)
+            sym[("E", d, i)] = W.message(d, 2, W.template_body(i, []))
             sym[("D", d, i)] = W.message(d, i, rec + rec)
     return sym
 
@@ -100,5 +103,5 @@ def run(ctx):
     rng = random.Random(ctx.seed * 1000003 + 4)
     cases = gen_cases(rng, ctx.tier)
     res = run_dec(ctx, cases, "C04", signature, use_spec=True)
-    res["notes"].append("histories enumerated exhaustively up to the stated length over the 28-symbol alphabet")
+    res["notes"].append("histories enumerated exhaustively up to the stated length over the 32-symbol alphabet")
     return res
